@@ -17,7 +17,7 @@ EXPLORER = 'E1'
 CLAUSES = ['C03.n_hits', 'C03.perc', 'C03.okta_rule', 'C03.okta_monotone', 'C03.code_prefix', 'C03.total',
            'C03.okta0_edge', 'C03.okta8_edge', 'C03.tie', 'C03.multi_hit_once']
 RULE = ('CT: all (count,total) pairs 0<=count<=total<=N x MAX_HITS_OKTA0 {0,1,3} x MAX_HOLES_OKTA8 {0,1,2}, one '
-        'case per total (and per number of ceilometers); M3: all 2x2 tables over a 7-entry cell menu (same-deck '
+        'case per total (and per number of ceilometers); M3: all 2x2 tables over an 8-entry cell menu (same-deck '
         'double hits, cross-deck double hits, absent cells) x coincident/offset stamps x okta0 {0,1}. Every row of '
         'the three tables of every run is judged. distinct_nontrivial = distinct (n_hits,total,okta,params) tuples seen')
 ASSUMPTIONS = ['x.5-okta ties accept both neighbouring oktas', 'totals beyond the bound are not decided']
@@ -31,6 +31,7 @@ M3_MENU = [
     [(1000.0, 1), (3000.0, 2)],                  # two decks
     [(3000.0, 1)],
     [(1000.0, 1), (1040.0, 2), (3000.0, 3)],
+    [(1040.0, 2)],                               # a measurement holding only a second hit (warning-only anomaly)
 ]
 
 
@@ -56,7 +57,7 @@ def cases(tier):
 
 
 def weight(case):
-    return (case['total'] + 1) * 9 if case['fam'] == 'CT' else 4
+    return (case['total'] + 1) * 9 if case['fam'] == 'CT' else 6
 
 
 def judge(res, r, prms, sub, monotone_map=None):
@@ -153,8 +154,9 @@ def run_case(case):
                         continue
                     for (h, typ) in e:
                         rows.append([('a', 'b')[c], dts[t] - (offset if c == 1 else 0.0), h, typ])
-            for o0 in (0, 1):
-                prms = {'MAX_HITS_OKTA0': o0, 'MAX_HOLES_OKTA8': 0}
+            for prms in ({'MAX_HITS_OKTA0': 0, 'MAX_HOLES_OKTA8': 0}, {'MAX_HITS_OKTA0': 1, 'MAX_HOLES_OKTA8': 0},
+                         # the base-height exclusion list must not change any count
+                         {'MAX_HITS_OKTA0': 0, 'MAX_HOLES_OKTA8': 1, 'EXCLUDE_FOR_BASE_HEIGHT_CALC': ['b']}):
                 r = pipeline.run(rows, prms, msgs=False)
                 res['n'] += 1
                 if not r.ok:
